@@ -829,6 +829,47 @@ func checkC16(p *Prog, r *Report) {
 			}
 		}
 		r.Check(len(unprinted) == 0, "Marshal prints every component it reads", p.Pos(f.Body.Pos()), "each accessor result reaches a Sprintf argument", "not printed: "+strings.Join(unprinted, ", "))
+		// the extensions are appended whenever there are any: the only way past the append is "the text is empty"
+		if ext := p.localByDef(f, func(rhs ast.Expr) bool {
+			cc, ok := unparen(rhs).(*ast.CallExpr)
+			return ok && strings.HasSuffix(p.CalleeName(cc), ".marshalExtensions")
+		}); ext != nil {
+			var defNode ast.Node
+			walkBody(f, func(n ast.Node) bool {
+				if as, ok := n.(*ast.AssignStmt); ok && defNode == nil {
+					for _, l := range as.Lhs {
+						if id, ok := l.(*ast.Ident); ok && p.ObjOf(id) == ext {
+							defNode = as
+						}
+					}
+				}
+				return true
+			})
+			if loc, okL := g.Locate(defNode); defNode != nil && okL {
+				appends := func(n ast.Node) bool {
+					return p.nodeHasCall(n, func(cc *ast.CallExpr) bool {
+						if p.CalleeName(cc) != "fmt.Sprintf" {
+							return false
+						}
+						for _, a := range cc.Args[1:] {
+							if p.mentionsObj(a, ext) {
+								return true
+							}
+						}
+						return false
+					})
+				}
+				_, escapes := g.PathAvoiding(Loc{loc.B, loc.I + 1}, appends, func(b *Block) bool { return b == g.Exit }, func(e *Edge) bool {
+					for _, ft := range p.FactsOfCond(e.Cond, e.Val) {
+						if v, isC := p.ConstVal(ft.Y); isC && v == `""` && ft.Op == "==" && ft.Val && p.mentionsObj(ft.X, ext) {
+							return false // nothing to append
+						}
+					}
+					return true
+				})
+				r.Check(!escapes, "Marshal appends the extensions whenever there are any", p.Pos(defNode.Pos()), "the append is skipped only where the extension text is empty", "a path through Marshal skips the extensions although the candidate has some: tcptype and every other extension are lost in the textual form and the parsed copy is not Equal")
+			}
+		}
 	}
 	if f := p.Fn("candidateBase.marshalExtensions"); r.Anchor("candidateBase.marshalExtensions", f != nil) {
 		usesAll := len(p.CallsTo(f, false, "ice.candidateBase.Extensions", "ice.Candidate.Extensions")) == 1
